@@ -120,6 +120,10 @@ impl RingStub {
     pub fn sq_head(&self) -> u32 {
         self.a32(self.sq_ring + H_HEAD).load(Ordering::SeqCst)
     }
+    /// the kernel's flags word of the submission ring (IORING_SQ_NEED_WAKEUP = 1, CQ_OVERFLOW = 2, TASKRUN = 4)
+    pub fn set_sq_flags(&self, v: u32) {
+        self.a32(self.sq_ring + H_FLAGS).store(v, Ordering::SeqCst);
+    }
     pub fn sq_tail(&self) -> u32 {
         self.a32(self.sq_ring + H_TAIL).load(Ordering::SeqCst)
     }
@@ -316,7 +320,7 @@ fn run_ring(dec: Dec, opts: &RunOpts) -> RunOut {
             let mut posted: VecDeque<u64> = VecDeque::new(); // posted, not yet returned to the app
             let mut held: Option<(usize, u64)> = None; // a completion reference the app still reads
             for _ in 0..nsteps {
-                match s.dec.choose(K::Op, 7) {
+                match s.dec.choose(K::Op, if sqpoll { 9 } else { 7 }) {
                     0 | 1 => {
                         // application: get a slot and fill it
                         let outstanding_before = slots.iter().filter(|x| **x != Slot::Free).count();
@@ -444,6 +448,28 @@ fn run_ring(dec: Dec, opts: &RunOpts) -> RunOut {
                                 steps_done.push("app: nothing to reap".into());
                             }
                         }
+                    }
+                    7 | 8 => {
+                        // kernel-side poller (SQPOLL rings only): it goes idle or comes back, and the
+                        // flags word may carry further bits of the kernel at the same time; the
+                        // application then asks whether it has to wake the poller.  A "no" while the
+                        // poller is idle leaves every flushed entry unconsumed for ever.
+                        let idle = s.dec.chance(K::Arg, 2, 3);
+                        let other = *s.dec.pick(K::Arg, &[0u32, 0, 2, 4, 6]);
+                        stub.set_sq_flags(u32::from(idle) | other);
+                        let says = ring.needs_wakeup();
+                        steps_done.push(format!("kernel: sq flags {:#x}; app: needs_wakeup -> {says}", u32::from(idle) | other));
+                        counters.push(("probe.needs_wakeup_asked", 1));
+                        if idle && other != 0 {
+                            counters.push(("probe.needs_wakeup_with_other_flag_bits", 1));
+                        }
+                        if idle && !says {
+                            return Some(Violation {
+                                sig: "sq|poller-idle-but-no-wakeup-wanted".into(),
+                                detail: format!("the kernel's submission-ring flags are {:#x} (IORING_SQ_NEED_WAKEUP set: the poller sleeps), needs_wakeup() returned false: flushed entries would never be consumed", u32::from(idle) | other),
+                            });
+                        }
+                        stub.set_sq_flags(0);
                     }
                     _ => {
                         // application reads the fields of the completion it was handed earlier
